@@ -53,6 +53,44 @@ static void case_fn (CS &cs, Outcome &o) {
     fwd.push_back ({keep.back (), MIR_new_forward (ctx, keep.back ().c_str ())});
   }
   size_t fwd_defined = 0;
+  // expression functions: some are created ahead of all data items (so that several expr items can share one
+  // section), others right before their expr item (the function item then ends the running section)
+  struct ExprFn { MIR_item_t fi; MIR_type_t rt; std::vector<uint8_t> bytes; };
+  auto make_expr_fn = [&] () {
+    std::vector<uint8_t> xb;
+    static const MIR_type_t rts[] = {MIR_T_I64, MIR_T_I32, MIR_T_U8, MIR_T_I16, MIR_T_D, MIR_T_F, MIR_T_LD, MIR_T_U32, MIR_T_I8, MIR_T_U16, MIR_T_U64};
+    MIR_type_t rt = rts[cs.range (0, 10)];
+    keep.push_back (strfmt ("ex%d", uid++));
+    MIR_item_t fi = MIR_new_func (ctx, keep.back ().c_str (), 1, &rt, 0);
+    size_t es = _MIR_type_size (ctx, rt);
+    xb.assign (es, 0);
+    if (rt == MIR_T_D) {
+      double a = pick_d (cs, true), v = a * 0.5 + 1.0;
+      MIR_reg_t r = MIR_new_func_reg (ctx, fi->u.func, MIR_T_D, "v");
+      MIR_append_insn (ctx, fi, MIR_new_insn (ctx, MIR_DMUL, MIR_new_reg_op (ctx, r), MIR_new_double_op (ctx, a), MIR_new_double_op (ctx, 0.5)));
+      MIR_append_insn (ctx, fi, MIR_new_insn (ctx, MIR_DADD, MIR_new_reg_op (ctx, r), MIR_new_reg_op (ctx, r), MIR_new_double_op (ctx, 1.0)));
+      MIR_append_insn (ctx, fi, MIR_new_ret_insn (ctx, 1, MIR_new_reg_op (ctx, r)));
+      memcpy (xb.data (), &v, 8);
+    } else if (rt == MIR_T_F) {
+      float v = pick_f (cs, true);
+      MIR_append_insn (ctx, fi, MIR_new_ret_insn (ctx, 1, MIR_new_float_op (ctx, v)));
+      memcpy (xb.data (), &v, 4);
+    } else if (rt == MIR_T_LD) {
+      long double v = pick_ld (cs, true);
+      MIR_append_insn (ctx, fi, MIR_new_ret_insn (ctx, 1, MIR_new_ldouble_op (ctx, v)));
+      memcpy (xb.data (), &v, 10);
+    } else {
+      int64_t a = pick_int (cs), b = pick_int (cs), v = (int64_t) ((uint64_t) a + (uint64_t) b);
+      MIR_reg_t r = MIR_new_func_reg (ctx, fi->u.func, MIR_T_I64, "v");
+      MIR_append_insn (ctx, fi, MIR_new_insn (ctx, MIR_ADD, MIR_new_reg_op (ctx, r), MIR_new_int_op (ctx, a), MIR_new_int_op (ctx, b)));
+      MIR_append_insn (ctx, fi, MIR_new_ret_insn (ctx, 1, MIR_new_reg_op (ctx, r)));
+      memcpy (xb.data (), &v, es);  // truncated to the result type (little endian)
+    }
+    MIR_finish_func (ctx);
+    return ExprFn{fi, rt, xb};
+  };
+  std::vector<ExprFn> expr_pool;
+  for (int q = (int) cs.range (0, 4); q > 0; q--) expr_pool.push_back (make_expr_fn ());
   for (int it = 0; it < n; it++) {
     ExpItem e;
     int k = cs.weightedv ({8, 4, 3, 2, 2, 2});
@@ -109,42 +147,21 @@ static void case_fn (CS &cs, Outcome &o) {
       desc += strfmt ("%slref %s%+ld ", e.named ? (e.name + ":").c_str () : "", e.two_labels ? "la-lb" : "la", (long) e.disp);
       break;
     case ExpItem::EXPR: {
-      static const MIR_type_t rts[] = {MIR_T_I64, MIR_T_I32, MIR_T_U8, MIR_T_I16, MIR_T_D, MIR_T_F, MIR_T_LD, MIR_T_U32, MIR_T_I8, MIR_T_U16, MIR_T_U64};
-      MIR_type_t rt = rts[cs.range (0, 10)];
-      keep.push_back (strfmt ("ex%d", uid++));
-      MIR_item_t fi = MIR_new_func (ctx, keep.back ().c_str (), 1, &rt, 0);
+      bool pooled = !expr_pool.empty () && cs.chance (170);
+      ExprFn xf = pooled ? expr_pool[cs.range (0, expr_pool.size () - 1)] : make_expr_fn ();
+      MIR_item_t fi = xf.fi;
+      MIR_type_t rt = xf.rt;
       size_t es = _MIR_type_size (ctx, rt);
-      e.bytes.assign (es, 0);
-      if (rt == MIR_T_D) {
-        double a = pick_d (cs, true), v = a * 0.5 + 1.0;
-        MIR_reg_t r = MIR_new_func_reg (ctx, fi->u.func, MIR_T_D, "v");
-        MIR_append_insn (ctx, fi, MIR_new_insn (ctx, MIR_DMUL, MIR_new_reg_op (ctx, r), MIR_new_double_op (ctx, a), MIR_new_double_op (ctx, 0.5)));
-        MIR_append_insn (ctx, fi, MIR_new_insn (ctx, MIR_DADD, MIR_new_reg_op (ctx, r), MIR_new_reg_op (ctx, r), MIR_new_double_op (ctx, 1.0)));
-        MIR_append_insn (ctx, fi, MIR_new_ret_insn (ctx, 1, MIR_new_reg_op (ctx, r)));
-        memcpy (e.bytes.data (), &v, 8);
-      } else if (rt == MIR_T_F) {
-        float v = pick_f (cs, true);
-        MIR_append_insn (ctx, fi, MIR_new_ret_insn (ctx, 1, MIR_new_float_op (ctx, v)));
-        memcpy (e.bytes.data (), &v, 4);
-      } else if (rt == MIR_T_LD) {
-        long double v = pick_ld (cs, true);
-        MIR_append_insn (ctx, fi, MIR_new_ret_insn (ctx, 1, MIR_new_ldouble_op (ctx, v)));
-        memcpy (e.bytes.data (), &v, 10);
-      } else {
-        int64_t a = pick_int (cs), b = pick_int (cs), v = (int64_t) ((uint64_t) a + (uint64_t) b);
-        MIR_reg_t r = MIR_new_func_reg (ctx, fi->u.func, MIR_T_I64, "v");
-        MIR_append_insn (ctx, fi, MIR_new_insn (ctx, MIR_ADD, MIR_new_reg_op (ctx, r), MIR_new_int_op (ctx, a), MIR_new_int_op (ctx, b)));
-        MIR_append_insn (ctx, fi, MIR_new_ret_insn (ctx, 1, MIR_new_reg_op (ctx, r)));
-        memcpy (e.bytes.data (), &v, es);  // truncated to the result type (little endian)
+      e.bytes = xf.bytes;
+      if (!pooled) {
+        // the function item itself ends any running section
+        ExpItem brk;
+        brk.k = ExpItem::BREAK;
+        brk.named = true;
+        brk.size = 0;
+        brk.item = fi;
+        items.push_back (brk);
       }
-      MIR_finish_func (ctx);
-      // the function item itself ends any running section
-      ExpItem brk;
-      brk.k = ExpItem::BREAK;
-      brk.named = true;
-      brk.size = 0;
-      brk.item = fi;
-      items.push_back (brk);
       e.item = MIR_new_expr_data (ctx, name, fi);
       e.size = es;
       desc += strfmt ("<func> %sexpr:%s ", e.named ? (e.name + ":").c_str () : "", type_name (rt));
@@ -195,7 +212,8 @@ static void case_fn (CS &cs, Outcome &o) {
   uint8_t *expect_addr = NULL;
   bool in_section = false;
   int members = 0, kinds_mask = 0, max_members = 0, max_kinds = 0;
-  bool zero_len = false, fwd_ref = false;
+  bool zero_len = false, fwd_ref = false, mixed_expr = false;
+  size_t sect_expr_size = 0;
   for (size_t i = 0; i < items.size (); i++) {
     ExpItem &e = items[i];
     if (e.k == ExpItem::BREAK) {
@@ -208,6 +226,7 @@ static void case_fn (CS &cs, Outcome &o) {
       in_section = true;
       members = 0;
       kinds_mask = 0;
+      sect_expr_size = 0;
       if (!e.item->section_head_p) return o.fail ("C14:section-head-flag", strfmt ("item %zu should start a section: %s", i, desc.c_str ()));
     } else {
       if (addr != expect_addr)
@@ -218,6 +237,10 @@ static void case_fn (CS &cs, Outcome &o) {
     }
     members++;
     kinds_mask |= 1 << e.k;
+    if (e.k == ExpItem::EXPR) {
+      if (sect_expr_size != 0 && sect_expr_size != e.size) mixed_expr = true;
+      sect_expr_size = e.size;
+    }
     max_members = std::max (max_members, members);
     max_kinds = std::max (max_kinds, __builtin_popcount (kinds_mask));
     if (e.size == 0) zero_len = true;
@@ -262,6 +285,7 @@ static void case_fn (CS &cs, Outcome &o) {
     }
   }
   if (max_members >= 3 && max_kinds >= 2) o.label ("section_3plus_members_2plus_kinds");
+  if (mixed_expr) o.label ("section_with_expr_items_of_different_width");
   if (zero_len) o.label ("zero_length_member");
   if (fwd_ref) o.label ("forward_ref");
   o.label (use_gen ? "gen" : "interp");
